@@ -327,6 +327,7 @@ class Config:
         self.prune = True
         self.elapsed = "1"
         self.timed = False
+        self.elapsed_options: list[str] = []
         self.__dict__.update(kw)
 
 
@@ -449,7 +450,11 @@ class Run:
         return d
 
     def elapsed_of(self, ev: dict[str, Any]) -> str:
-        return self.config.elapsed
+        opts = self.config.elapsed_options
+        if len(opts) <= 1:
+            return self.config.elapsed
+        # the recorded duration of an execution (the runner turns a PASS that took > 1.25 x the longest earlier PASS into WARN)
+        return opts[symx.choose(len(opts), f"elapsed{ev['exec']}")]
 
     def choose_status(self, ev: dict[str, Any]) -> str:
         c = self.config
@@ -781,3 +786,32 @@ def run_tool(eng: symx.Engine, scenario: ToolScenario, config: Config) -> Run:
     except ValueError as e:
         run.tool_error = e
     return run
+
+
+
+def setup_previous(run: Run, by_workers: list[str] | None = None, statuses: tuple[str, ...] = ("-", "PASS", "FAIL")) -> None:
+    """Solver-chosen results of a replayed previous job, per (bridged) test and attributed to one of the given workers."""
+    run.previous_by_bridged = {}
+    run.previous_producers = {}
+    prev = []
+    seen = set()
+    workers = by_workers or sorted(run.graph.workers)
+    for node in run.graph.nodes:
+        if node.is_flat() or node.is_shared_root() or len(node.cloned_nodes) > 0 or node.is_object_root():
+            continue
+        b = bridged_name(node)
+        if b in seen:
+            continue
+        seen.add(b)
+        label = ".".join(b.split(".vms.")[0].split(".")[-2:])
+        choice = statuses[symx.choose(len(statuses), f"previous:{label}")]
+        if choice == "-":
+            continue
+        wid = workers[symx.choose(len(workers), f"previous_by:{label}")] if len(workers) > 1 else workers[0]
+        copy_ = next((n for n in run.graph.nodes if not n.is_flat() and not n.is_shared_root() and bridged_name(n) == b and n.params.get("nets") == wid), node)
+        prev.append({"name": copy_.params["name"], "status": choice, "time_elapsed": "1"})
+        run.previous_by_bridged[b] = choice
+        if choice in SAVING:
+            for key in produced_states(copy_):
+                run.previous_producers.setdefault(key, {})[wid] = choice
+    run.runner.previous_results = prev
